@@ -322,7 +322,7 @@ class ParametricModelBaseMixin(object):
 
     @classmethod
     def _get_object_type_name(cls):
-        return "parametric_model"
+        return "model"
 
     @property
     def ndf(self):
